@@ -160,8 +160,12 @@ SPECS = [
     ("ansLinkTimeout", "lib/src/protocol/mux/mod.rs", r"StreamState::Link => \{(?:\s*//[^\n]*)*\s+let answers = answers_rc\.borrow\(\);\s+let stream = &mut self\.context\.streams\[stream_id\];\s+set_default_answer\(stream, front_readiness, (\d+), &answers\);", "front timer, stream in Link"),
     ("ansFrontTimeoutLinked", "lib/src/protocol/mux/mod.rs", r"Some\(\"client_timeout_during_response\"\);\s+set_default_answer\(stream, front_readiness, (\d+), &answers\);", "front timer, Linked, response not started"),
     ("ansBackendTimeout", "lib/src/protocol/mux/mod.rs", r"Some\(\"backend_timeout\"\);\s+set_default_answer\(stream, front_readiness, (\d+), &answers\);", "back timer, Linked, response not started"),
-    ("ansBackendClosedEarly", "lib/src/protocol/mux/shared.rs", r"\} else if stream\.front\.consumed \{\s+EndStreamAction::SendDefault\((\d+)\)", "end_stream_decision: no response, request already consumed"),
+    ("ansBackendClosedEarly", "lib/src/protocol/mux/shared.rs", r"EndStreamAction::SendDefault\((\d+)\)", "end_stream_decision: no response, request already consumed"),
     ("ansFrontParse", "lib/src/protocol/mux/h1.rs", r"incr!\(names::http::FRONTEND_PARSE_ERRORS\);\s+let answers = answers_rc\.borrow\(\);\s+set_default_answer\(stream, &mut self\.readiness, (\d+), &answers\);", "H1 request parse error"),
+    # --- State (C05/C06/C07): listener patch validation ---
+    ("stateShrinkRatioMinHttp", "command/src/state.rs", r"pub fn validate_h2_flood_knobs_http\b[\s\S]*?if let Some\(v\) = patch\.h2_stream_shrink_ratio \{\s*if v < (\d+)", "update_http_listener: smallest accepted h2_stream_shrink_ratio"),
+    ("stateShrinkRatioMinHttps", "command/src/state.rs", r"pub fn validate_h2_flood_knobs_https\b[\s\S]*?if let Some\(v\) = patch\.h2_stream_shrink_ratio \{\s*if v < (\d+)", "update_https_listener: smallest accepted h2_stream_shrink_ratio"),
+    ("stateKnobZeroRejected", "command/src/state.rs", r"pub fn validate_h2_flood_knobs_https\b[\s\S]*?if let Some\((\d+)\) = \$field", "require_ge1!: the rejected value of a flood knob"),
 ]
 
 # byte tables: (lean name, file, regex with ONE group = comma-separated byte list)
